@@ -344,7 +344,32 @@ def orientB [Zero F] (tol : F) (T vects : Mat F) (b : Vec F) : Vec F :=
   let big := listMax (absF (b' 0)) [absF (b' 1), absF (b' 2)]
   fun i => chop tol big (b' i)
 
+/-- `np.abs(b).max()` -/
+def maxAbs3 [Zero F] (b : Vec F) : F := listMax (absF (b 0)) [absF (b 1), absF (b 2)]
+
+/-- `IsotropicVolterraDislocation.solve` (repo fix 9765d33): the closed form carries only `b·m` and `b·ξ`, so a
+    Burgers vector with `|b·n| > tol · max|bᵢ|` is refused (`ValueError`). -/
+def isoInPlaneOk [Zero F] (tol : F) (b n : Vec F) : Bool :=
+  !(decide (tol * maxAbs3 b < absF (dot b n)))
+
 end orient
+
+/-! ### the entry point `solve_volterra_dislocation` -/
+
+inductive Solver where
+  | stroh
+  | iso
+deriving Repr, DecidableEq
+
+/-- `IsotropicVolterraDislocation` accepts (does not raise `ValueError`): `isoNormal` is the value of
+    `C.is_normal('isotropic', atol=0.0, rtol=1e-4)` (property C11, a parameter here), `inPlane` the in-plane test. -/
+def isoAccept (isoNormal inPlane : Bool) : Bool := isoNormal && inPlane
+
+/-- `solve_volterra_dislocation`: `try: return Stroh(...)  except ValueError: return IsotropicVolterraDislocation(...)`.
+    `strohOk` = `Stroh.solve` does not raise (`strohAccept` on the eigen-solver's output); `none` = the `ValueError`
+    of the isotropic solver propagates. -/
+def dispatch (strohOk isoNormal inPlane : Bool) : Option Solver :=
+  if strohOk then some .stroh else if isoAccept isoNormal inPlane then some .iso else none
 
 /-! ### acceptance tests of `Stroh.solve` (the four `allclose` self-checks and the real-`K_tensor` test) -/
 section accept
